@@ -319,12 +319,14 @@ impl WorkStealingExecutor {
         // Try to submit to a worker queue first
         let worker_id = self.next_worker.fetch_add(1, Ordering::Relaxed) % self.workers.len();
 
+        verif_point!("ws.submit.probe", worker_id);
         // Check if local queue has space and submit directly to global if not
         let can_use_local = {
             let queue = self.queues[worker_id].local_queue.lock().unwrap_or_else(|e| e.into_inner());
             queue.len() < self.queues[worker_id].capacity
         };
 
+        verif_point!("ws.submit.push", worker_id);
         if can_use_local {
             // Try local queue
             if self.queues[worker_id].push_local(task).is_ok() {
@@ -421,7 +423,9 @@ impl WorkStealingExecutor {
         let mut idle_count = 0;
         const MAX_IDLE: usize = 100;
 
+        verif_point!("ws.worker.start", worker_id);
         while !shutdown.load(Ordering::Relaxed) {
+            verif_point!("ws.worker.find", worker_id);
             let task = Self::find_task(my_queue, &other_queues, &global_queue, &stats);
 
             match task {
@@ -442,6 +446,7 @@ impl WorkStealingExecutor {
                     stats.active_tasks.fetch_sub(1, Ordering::Relaxed);
                 }
                 None => {
+                    verif_point!("ws.worker.idle", worker_id);
                     idle_count += 1;
                     if idle_count < MAX_IDLE {
                         // Short busy wait for low latency
@@ -453,11 +458,13 @@ impl WorkStealingExecutor {
                 }
             }
 
+            verif_point!("ws.worker.balance", worker_id);
             // Periodically balance the queue
             if stats.total_executed.load(Ordering::Relaxed) % 100 == 0 {
                 my_queue.balance();
             }
         }
+        verif_point!("ws.worker.exit", worker_id);
     }
 
     /// Find a task from local queue, other queues, or global queue
@@ -472,6 +479,7 @@ impl WorkStealingExecutor {
             return Some(task);
         }
 
+        verif_point!("ws.find.global", my_queue.worker_id());
         // 2. Try global queue
         if let Ok(mut queue) = global_queue.try_lock() {
             if let Some(task) = queue.pop_front() {
@@ -481,6 +489,7 @@ impl WorkStealingExecutor {
 
         // 3. Try to steal from other workers
         for other_queue in other_queues {
+            verif_point!("ws.find.steal", my_queue.worker_id(), other_queue.worker_id());
             if let Some(task) = other_queue.steal() {
                 stats.total_steals.fetch_add(1, Ordering::Relaxed);
                 return Some(task);
